@@ -412,13 +412,19 @@ class C15(Family):
     # the run-time model (DSS.similarity / reachableForm / observableForm / modelReduction)
     extra_modules = ["CtrlVerif.Props.C15GenSim", "CtrlVerif.Props.C15GenReach", "CtrlVerif.Props.C15GenObs",
                      "CtrlVerif.Props.C15GenForm", "CtrlVerif.Props.C15GenKeys", "CtrlVerif.Props.C15GenReduce",
-                     "CtrlVerif.Props.C15Flag"]
+                     "CtrlVerif.Props.C15Flag",
+                     # source-text tie of the per-entry body of TransferFunction.minreal (py2lean_minreal):
+                     # cancellation loop = cancelRoots, body = minrealEntry, tolerance test = closeQ
+                     "CtrlVerif.Props.C15GenMinreal"]
 
     def pre_build(self):
         import os
         from core import py2lean_canon, leanproj
         problems, self.gen_info = py2lean_canon.regenerate(os.environ.get("VERIF_REPO") or "/repo", leanproj.LEAN)
-        return problems
+        from core import py2lean_minreal
+        p2, info2 = py2lean_minreal.regenerate(os.environ.get("VERIF_REPO") or "/repo", leanproj.LEAN)
+        self.gen_info.update(info2)
+        return problems + p2
     externals = [
         "numpy.linalg.solve (the model uses a certified exact inverse: Gauss-Jordan candidate checked "
         "by F*X = 1, else det/adjugate)",
